@@ -122,9 +122,16 @@ class Concretisation:
         self.vperm = rng.sample(range(3), 3)
 
     def iv_epoch(self, i):
+        # the last position of EACH year is that year's own last interval (Dec 31 of a leap year lies one day beyond
+        # the last interval the two years have in common)
         if i <= self.ni0:
+            if i == self.ni0 and self.ni0 >= 2:
+                return year_start(self.y0) + year_len(self.y0) - self.tfsec
             return year_start(self.y0) + self.elapsed[i - 1]
-        return year_start(self.y1) + self.elapsed[i - self.ni0 - 1]
+        k = i - self.ni0
+        if k == self.ni1 and self.ni1 >= 2:
+            return year_start(self.y1) + year_len(self.y1) - self.tfsec
+        return year_start(self.y1) + self.elapsed[k - 1]
 
     def row_time(self, r):
         ns = self.offs[r["o"]] if self.kind == "variable" else 0
